@@ -468,14 +468,23 @@ func SubjectsOf(checker string) []Subject {
 	return RuleSubjects()[checker]
 }
 
-// calleeSpelling mirrors how a callee is written: "f" or "q.f" ("" otherwise). Parentheses are looked through.
+// calleeSpelling mirrors how a callee is written: "f" or "q.f" ("" otherwise).
 func calleeSpelling(fun ast.Expr) (string, *ast.Ident, *ast.Ident) {
+	// parentheses, index expressions and explicit instantiations are looked through: `append[k](..)`, `(sort.Slice[int])(..)`
+	// are spelled like the subject and resolve to whatever the indexed identifier resolves to
 	for {
-		p, ok := fun.(*ast.ParenExpr)
-		if !ok {
-			break
+		switch p := fun.(type) {
+		case *ast.ParenExpr:
+			fun = p.X
+			continue
+		case *ast.IndexExpr:
+			fun = p.X
+			continue
+		case *ast.IndexListExpr:
+			fun = p.X
+			continue
 		}
-		fun = p.X
+		break
 	}
 	switch x := fun.(type) {
 	case *ast.Ident:
